@@ -463,6 +463,15 @@ impl ResidencyDb {
                     break;
                 }
                 if let Some(page) = ResidencyPage::from_bytes(&data[offset..]) {
+                    // Every entry carries a hash guard over its key, span and update
+                    // type: one that fails it is corrupt, and loading it would report
+                    // a key resident (or not) against what was recorded
+                    if page.entries.iter().any(|e| !e.validate_hash_guard()) {
+                        return Err(StorageError::Archive(format!(
+                            "residency db {}: an entry of bucket {bucket_id} fails its hash guard",
+                            path.display()
+                        )));
+                    }
                     db.buckets[bucket_id].push(page);
                 }
                 offset += RESIDENCY_PAGE_SIZE;
